@@ -245,6 +245,8 @@ package lua
 //@ cut@"nvarargs := nargs - np" the vararg relocation of the inlined initCallFrame is not verified yet
 //@ ensures  $inv(ls.stack) && $sp(ls.stack) == old($sp(ls.stack)) + 1 && $sp(ls.stack) >= 1 && ls.currentFrame == $frame(ls.stack, old($sp(ls.stack))) && ls.currentFrame != nil && Inv_reg(ls.reg) && ls.reg == old(ls.reg)
 //@ ensures  ls.currentFrame.Fn.IsG ==> ls.currentFrame.LocalBase == cf.LocalBase && ls.reg.top == cf.LocalBase + cf.NArgs + ite(meta, 1, 0)
+//@ ensures  "call-object-first": meta && ls.currentFrame.Fn.IsG ==> ls.reg.array[cf.LocalBase] == fn && (forall k int :: cf.LocalBase < k && k <= cf.LocalBase + cf.NArgs ==> ls.reg.array[k] == old(ls.reg.array[k-1]))
+//@ ensures  "arguments-kept": !meta && ls.currentFrame.Fn.IsG ==> (forall k int :: cf.LocalBase <= k && k < cf.LocalBase + cf.NArgs ==> ls.reg.array[k] == old(ls.reg.array[k]))
 //@ ensures  ls.currentFrame.Fn == cf.Fn && ls.currentFrame.Fn != nil && ls.currentFrame.Parent == cf.Parent && ls.currentFrame.Base == cf.Base && ls.currentFrame.ReturnBase == cf.ReturnBase && ls.currentFrame.NRet == cf.NRet && ls.currentFrame.NArgs == cf.NArgs + ite(meta, 1, 0) && ls.currentFrame.Pc == cf.Pc && ls.currentFrame.TailCall == cf.TailCall && ls.currentFrame.Idx == old($sp(ls.stack))
 //@ ensures  forall i int :: 0 <= i && i < old($sp(ls.stack)) ==> $frame(ls.stack, i) == old($frame(ls.stack, i)) && unchanged($frame(ls.stack, i))
 //@ modifies ghost(ls.stack), type callFrame.*, ls.currentFrame, ls.reg.array, ls.reg.top, ls.reg.array[*]
@@ -316,6 +318,8 @@ package lua
 //@ requires opB(inst) != 0 ==> lb(L) + opA(inst) + opB(inst) <= top(L)
 //@ requires opB(inst) == 0 ==> lb(L) + opA(inst) + 1 <= top(L)
 //@ requires 0 <= L.currentFrame.ReturnBase && L.currentFrame.ReturnBase <= L.currentFrame.Base && L.currentFrame.Base < lb(L) && L.currentFrame.NRet >= -1
+// a callable object reached through __call becomes the first argument of its handler, also in tail position
+//@ assert@"if callGFunction(L, true) {" meta ==> L.reg.array[RA + 1] == lv
 //@ cut@"nvarargs := nargs - np" the vararg relocation of the inlined initCallFrame is not verified yet
 //@ modifies everything
 
@@ -415,4 +419,85 @@ package lua
 //@ ensures  "never-resumed": old(th(arg(L, 1)).Dead || L.G.CurrentThread == th(arg(L, 1)) || ancestor(L.G.CurrentThread, th(arg(L, 1)))) ==> ncalls() == old(ncalls()) && result == 2 && top(L) == old(top(L)) + 2 && pushed(L, 0) == LFalse && isStr(pushed(L, 1))
 //@ ensures  old(th(arg(L, 1)).Dead || L.G.CurrentThread == th(arg(L, 1)) || ancestor(L.G.CurrentThread, th(arg(L, 1)))) ==> L.G.CurrentThread == old(L.G.CurrentThread) && th(old(arg(L, 1))).Parent == old(th(arg(L, 1)).Parent)
 //@ raises when th(arg(L, 1)).wrapped || top(L) + 2 > cap(L.reg.array)
+//@ modifies everything
+
+// ---------------------------------------------------------------------------
+// Table access instructions. getField*/setField* may run metamethods (arbitrary Lua code); they are trusted here with
+// the call discipline and recorded in the ghost call log, so each handler's postcondition pins down WHICH operands
+// were passed, in which order, and where the result went (C01/C04). Their own handler-selection logic is C04.
+// ---------------------------------------------------------------------------
+
+//@ define sconst(L *LState) []string = L.currentFrame.Fn.Proto.stringConstants
+//@ define RKv(L *LState, i int) LValue = ite(i >= 256, konst(L)[i - 256], R(L, i))
+//@ define RKs(L *LState, i int) string = ite(i >= 256, sconst(L)[i - 256], str(R(L, i)))
+//@ define rkOK(L *LState, i int) bool = ite(i >= 256, i - 256 < len(konst(L)), i < nreg(L))
+//@ define rksOK(L *LState, i int) bool = ite(i >= 256, i - 256 < len(sconst(L)), i < nreg(L) && isStr(R(L, i)))
+// what a re-entrant call leaves alone (assumed): the frame, its header, the registry object; prototypes are immutable (C13)
+//@ define Disc(ls *LState) bool = ls.currentFrame == old(ls.currentFrame) && ls.reg == old(ls.reg) && unchanged(ls.currentFrame) && (old(Frame(ls)) ==> Frame(ls)) && ls.currentFrame.Fn.Proto == old(ls.currentFrame.Fn.Proto) && nreg(ls) == old(nreg(ls)) && ls.stack == old(ls.stack) && ls.G == old(ls.G)
+
+//@ trusted (*LState).getField [C01 C04 C07 C10]
+//@ assume getField/getFieldString/setField/setFieldString may run metamethods; call discipline assumed; handler selection is decided under C04
+//@ logged
+//@ ensures  Disc(ls) && result != nil
+//@ modifies everything
+//@ trusted (*LState).getFieldString [C01 C04 C07 C10]
+//@ logged
+//@ ensures  Disc(ls) && result != nil
+//@ modifies everything
+//@ trusted (*LState).setField [C01 C04 C07 C10]
+//@ logged
+//@ ensures  Disc(ls)
+//@ modifies everything
+//@ trusted (*LState).setFieldString [C01 C04 C07 C10]
+//@ logged
+//@ ensures  Disc(ls)
+//@ modifies everything
+
+//@ define offs(L *LState) bool = offset(sconst(L)) == 0
+
+//@ func jumpTable[OP_GETTABLE] [C01 C04 C07]
+//@ requires Frame(L) && opA(inst) < nreg(L) && opB(inst) < nreg(L) && rkOK(L, opC(inst))
+//@ ensures  result == 0 && Frame(L) && pc(L) == old(pc(L)) && ncalls() == old(ncalls()) + 1 && callfn(old(ncalls())) == fnid("(*LState).getField")
+//@ ensures  "operands": callargLV(old(ncalls()), 1) == old(R(L, opB(inst))) && callargLV(old(ncalls()), 2) == old(RKv(L, opC(inst)))
+//@ ensures  "result": R(L, opA(inst)) == callresLV(old(ncalls()), 0)
+//@ modifies everything
+
+//@ func jumpTable[OP_GETTABLEKS] [C01 C04 C07]
+//@ requires Frame(L) && offs(L) && opA(inst) < nreg(L) && opB(inst) < nreg(L) && rksOK(L, opC(inst))
+//@ ensures  result == 0 && Frame(L) && pc(L) == old(pc(L)) && ncalls() == old(ncalls()) + 1 && callfn(old(ncalls())) == fnid("(*LState).getFieldString")
+//@ ensures  "operands": callargLV(old(ncalls()), 1) == old(R(L, opB(inst))) && callargStr(old(ncalls()), 2) == old(RKs(L, opC(inst)))
+//@ ensures  "result": R(L, opA(inst)) == callresLV(old(ncalls()), 0)
+//@ modifies everything
+
+//@ func jumpTable[OP_GETGLOBAL] [C01 C03 C07]
+//@ requires Frame(L) && offs(L) && opA(inst) < nreg(L) && opBx(inst) < len(sconst(L))
+//@ ensures  result == 0 && Frame(L) && pc(L) == old(pc(L)) && ncalls() == old(ncalls()) + 1 && callfn(old(ncalls())) == fnid("(*LState).getFieldString")
+//@ ensures  "environment": callargLV(old(ncalls()), 1) == old(mkTab(L.currentFrame.Fn.Env)) && callargStr(old(ncalls()), 2) == old(sconst(L)[opBx(inst)])
+//@ ensures  "result": R(L, opA(inst)) == callresLV(old(ncalls()), 0)
+//@ modifies everything
+
+//@ func jumpTable[OP_SETGLOBAL] [C01 C03 C07]
+//@ requires Frame(L) && offs(L) && opA(inst) < nreg(L) && opBx(inst) < len(sconst(L))
+//@ ensures  result == 0 && Frame(L) && pc(L) == old(pc(L)) && ncalls() == old(ncalls()) + 1 && callfn(old(ncalls())) == fnid("(*LState).setFieldString")
+//@ ensures  "environment": callargLV(old(ncalls()), 1) == old(mkTab(L.currentFrame.Fn.Env)) && callargStr(old(ncalls()), 2) == old(sconst(L)[opBx(inst)]) && callargLV(old(ncalls()), 3) == old(R(L, opA(inst)))
+//@ modifies everything
+
+//@ func jumpTable[OP_SETTABLE] [C01 C04 C07]
+//@ requires Frame(L) && opA(inst) < nreg(L) && rkOK(L, opB(inst)) && rkOK(L, opC(inst))
+//@ ensures  result == 0 && Frame(L) && pc(L) == old(pc(L)) && ncalls() == old(ncalls()) + 1 && callfn(old(ncalls())) == fnid("(*LState).setField")
+//@ ensures  "operands": callargLV(old(ncalls()), 1) == old(R(L, opA(inst))) && callargLV(old(ncalls()), 2) == old(RKv(L, opB(inst))) && callargLV(old(ncalls()), 3) == old(RKv(L, opC(inst)))
+//@ modifies everything
+
+//@ func jumpTable[OP_SETTABLEKS] [C01 C04 C07]
+//@ requires Frame(L) && offs(L) && opA(inst) < nreg(L) && rksOK(L, opB(inst)) && rkOK(L, opC(inst))
+//@ ensures  result == 0 && Frame(L) && pc(L) == old(pc(L)) && ncalls() == old(ncalls()) + 1 && callfn(old(ncalls())) == fnid("(*LState).setFieldString")
+//@ ensures  "operands": callargLV(old(ncalls()), 1) == old(R(L, opA(inst))) && callargStr(old(ncalls()), 2) == old(RKs(L, opB(inst))) && callargLV(old(ncalls()), 3) == old(RKv(L, opC(inst)))
+//@ modifies everything
+
+// OP_SELF: R(A+1) := R(B); R(A) := R(B)[RK(C)] - the key is read BEFORE R(A+1) is overwritten (it may live there)
+//@ func jumpTable[OP_SELF] [C01 C02 C04 C07]
+//@ requires Frame(L) && offs(L) && opA(inst) + 1 < nreg(L) && opB(inst) < nreg(L) && rksOK(L, opC(inst))
+//@ ensures  result == 0 && Frame(L) && pc(L) == old(pc(L)) && ncalls() == old(ncalls()) + 1 && callfn(old(ncalls())) == fnid("(*LState).getFieldString")
+//@ ensures  "operands": callargLV(old(ncalls()), 1) == old(R(L, opB(inst))) && callargStr(old(ncalls()), 2) == old(RKs(L, opC(inst)))
+//@ ensures  "result": R(L, opA(inst)) == callresLV(old(ncalls()), 0) && R(L, opA(inst) + 1) == old(R(L, opB(inst)))
 //@ modifies everything
